@@ -171,7 +171,7 @@ theorem group_by_dimensions (tags : Tags) (star : Bool) (dims excl : List String
   cases star <;> simp [mem_sortStrings, mem_uniqueSorted, List.mem_filter]
 
 /-- named dimensions come out STRICTLY increasing — sorted, every dimension once — whatever order the script lists
-them in and however often it repeats one (`fix:` a050cea; `sort.Strings` then `uniqueSorted`). -/
+them in and however often it repeats one (`fix:` 6ba92e9; `sort.Strings` then `uniqueSorted`). -/
 theorem named_dimensions_sorted (dims excl : List String) :
     sortedLt (determineTagNames dims excl) = true ∧ (determineTagNames dims excl).Nodup :=
   ⟨sortedLt_of_pairwise _ (determineTagNames_pairwise dims excl), nodup_of_pairwise_lt (determineTagNames_pairwise dims excl)⟩
@@ -196,7 +196,7 @@ theorem one_spelling_on_both_edges (dims excl : List String) :
     (determineTagNames dims excl).eraseDups = determineTagNames dims excl :=
   eraseDups_of_nodup _ (named_dimensions_sorted dims excl).2
 
-/-- Counterexample about the code BEFORE `fix:` a050cea (`determineTagNamesOld`: sorted, repetitions kept): a dimension
+/-- Counterexample about the code BEFORE `fix:` 6ba92e9 (`determineTagNamesOld`: sorted, repetitions kept): a dimension
 listed twice (`groupBy('host','host')`) was kept twice on the stream edge, and the window node dropped the duplicate
 when it built the batch header — the same tag values were spelled by two different ids on the two edges (and a UDF
 re-derived the batch-edge spelling: C19's former finding batch-dims-rederived). Today both edges carry `[host]`.
@@ -295,7 +295,7 @@ theorem alert_isolated (pr : CountPred) (items : List (Item Pt)) (g : GroupID) :
 
 /-! ### node-wide state 3 (gone): the ExecutionState of a nested lambda node (was finding nested-lambda-state-shared) -/
 
-/-- Counterexample about the code BEFORE `fix:` dcda92d (regression witness
+/-- Counterexample about the code BEFORE `fix:` 8ed14ac (regression witness
 corpus/C06/fixed-nested-lambda-state-shared.ops): `var nc = lambda: count()` …
 `groupBy('host')|eval(lambda: nc * 1000 + count())`: host B's first point got 2001 in the interleaved run and 1001
 alone — the nested lambda's `count()` was one per node, the outer one per group. Today's receiver answers 1001 in
